@@ -184,6 +184,15 @@ class Effect:
         return self.facts.flow._call_heads(self.call, self.fn, self.bind, 0,
                                            set())
 
+    def callee_is(self, comp):
+        """The called object itself is `<...>.comp` (last component of a
+        head), e.g. callee_is("tool('rm')") for env.tool('rm')(files)."""
+        for h in self.heads():
+            cs = components(h)
+            if cs and _comp_match(cs[-1], comp):
+                return True
+        return False
+
     def recv(self):
         if isinstance(self.call.func, ast.Attribute):
             return self.facts.flow.atoms(self.call.func.value, self.fn,
@@ -206,6 +215,17 @@ class Effect:
         path from the analysed function)."""
         return self.facts.withs(self.call, self.fn, self.bind) | set(
             self.outer_with)
+
+    def arg_tests(self):
+        """Atoms of the tests of conditional expressions inside the
+        arguments (what decides *which* value is passed)."""
+        out = set()
+        for a in list(self.call.args) + [k.value for k in
+                                         self.call.keywords]:
+            for n in ast.walk(a):
+                if isinstance(n, ast.IfExp):
+                    out |= self.facts.flow.atoms(n.test, self.fn, self.bind)
+        return out
 
     def kw_const(self, name, default=None):
         k = Q.kwarg(self.call, name)
@@ -376,6 +396,12 @@ class Facts:
                         go(callee, d - 1)
         go(fn, depth)
         return out
+
+    def consts(self, fn, pred):
+        """Constant nodes of fn (and nested functions) whose value satisfies
+        pred."""
+        return [n for n in ast.walk(fn.node) if isinstance(n, ast.Constant)
+                and pred(n.value)]
 
     def gen_reuse(self, fn):
         """Locals bound (once) to a one-shot iterator -- a generator
